@@ -538,6 +538,7 @@ theorem keys_assign (M : List (κ × α)) (k : κ) (a : α) :
       have : ¬ k = k' := fun h => hk h.symm
       by_cases hm : k ∈ rest.map Prod.fst <;> simp [hm, this]
 
+omit [DecidableEq κ] in
 theorem nodup_snoc {l : List κ} {k : κ} (h : l.Nodup) (hk : k ∉ l) : (l ++ [k]).Nodup := by
   rw [List.nodup_append]
   refine ⟨h, by simp, ?_⟩
